@@ -27,6 +27,13 @@ use crate::message_ordinal_index::{
 
 const REVERSE_SCAN_CHUNK_BYTES: usize = 8 * 1024;
 
+#[cfg(rip_verif)]
+fn verif_point(name: &'static str, event: &Event) {
+    rip_kernel::verif::point(name, || {
+        serde_json::json!({"stream": event.stream_id(), "seq": event.seq})
+    });
+}
+
 #[derive(Debug, Clone)]
 pub(crate) struct TailScan {
     pub(crate) events: Vec<Event>,
@@ -107,6 +114,8 @@ impl ContinuityStreamCache {
         }
 
         let continuity_id = event.stream_id();
+        #[cfg(rip_verif)]
+        verif_point("cache.enter", event);
         let path = self.path_for(continuity_id);
         if let Some(parent) = path.parent() {
             let _ = fs::create_dir_all(parent);
@@ -133,6 +142,8 @@ impl ContinuityStreamCache {
         if writer.flush().is_err() {
             return;
         }
+        #[cfg(rip_verif)]
+        verif_point("cache.full.flushed", event);
 
         // Best-effort indexes (rebuildable caches) to avoid full sidecar scans.
         if event.seq.is_multiple_of(SEEK_INDEX_STRIDE_EVENTS_V1) {
@@ -141,6 +152,8 @@ impl ContinuityStreamCache {
                 &seek_path,
                 &SeqSeekIndexEntryV1::new(event.seq, offset),
             );
+            #[cfg(rip_verif)]
+            verif_point("cache.seek", event);
         }
         if matches!(
             &event.kind,
@@ -148,6 +161,8 @@ impl ContinuityStreamCache {
         ) {
             let msg_path = message_index_path(&self.dir, continuity_id);
             insert_message_best_effort_v1(&msg_path, &path, &event.id, event.seq, offset);
+            #[cfg(rip_verif)]
+            verif_point("cache.msgidx", event);
         }
 
         // Additional cache: messages+runs-only sidecar + indexes.
@@ -155,9 +170,15 @@ impl ContinuityStreamCache {
 
         // Additional cache: compaction checkpoints only (summary selection).
         self.append_compaction_checkpoints_best_effort_v1(event);
+        #[cfg(rip_verif)]
+        verif_point("cache.exit", event);
     }
 
     pub(crate) fn rebuild_best_effort(&self, continuity_id: &str, events: &[Event]) {
+        #[cfg(rip_verif)]
+        rip_kernel::verif::point("rebuild.enter", || {
+            serde_json::json!({"stream": continuity_id})
+        });
         let path = self.path_for(continuity_id);
         if let Some(parent) = path.parent() {
             let _ = fs::create_dir_all(parent);
@@ -166,6 +187,10 @@ impl ContinuityStreamCache {
         let Ok(file) = File::create(&path) else {
             return;
         };
+        #[cfg(rip_verif)]
+        rip_kernel::verif::point("rebuild.truncated", || {
+            serde_json::json!({"stream": continuity_id})
+        });
         let mut writer = BufWriter::new(file);
         let mut offset: u64 = 0;
         let mut index_builder = SidecarIndexBuilderV1::new();
@@ -187,6 +212,10 @@ impl ContinuityStreamCache {
 
         self.rebuild_messages_runs_best_effort_v1(continuity_id, events);
         self.rebuild_compaction_checkpoints_best_effort_v1(continuity_id, events);
+        #[cfg(rip_verif)]
+        rip_kernel::verif::point("rebuild.exit", || {
+            serde_json::json!({"stream": continuity_id})
+        });
     }
 
     fn append_messages_runs_best_effort_v1(&self, event: &Event) {
@@ -227,6 +256,8 @@ impl ContinuityStreamCache {
         if writer.flush().is_err() {
             return;
         }
+        #[cfg(rip_verif)]
+        verif_point("cache.mr.flushed", event);
 
         // Best-effort indexes (rebuildable caches).
         let seek_path = self.messages_runs_seq_index_path_v1(continuity_id);
@@ -237,12 +268,18 @@ impl ContinuityStreamCache {
                 &seek_path,
                 &SeqSeekIndexEntryV1::new(event.seq, offset),
             );
+            #[cfg(rip_verif)]
+            verif_point("cache.mr.seek", event);
         }
         if matches!(&event.kind, EventKind::ContinuityMessageAppended { .. }) {
             let msg_path = self.messages_runs_message_index_path_v1(continuity_id);
             insert_message_best_effort_v1(&msg_path, &path, &event.id, event.seq, offset);
+            #[cfg(rip_verif)]
+            verif_point("cache.mr.msgidx", event);
             let ord_path = self.messages_runs_message_ordinal_index_path_v1(continuity_id);
             append_message_record_best_effort_v1(&ord_path, event.seq, &event.id);
+            #[cfg(rip_verif)]
+            verif_point("cache.mr.ord", event);
         }
     }
 
@@ -278,10 +315,14 @@ impl ContinuityStreamCache {
             return;
         }
         let _ = writer.flush();
+        #[cfg(rip_verif)]
+        verif_point("cache.comp.flushed", event);
 
         if let Some(entry) = CompactionCheckpointIndexEntryV1::from_event(event) {
             let idx_path = self.compaction_checkpoints_index_path_for_v1(continuity_id);
             append_compaction_checkpoint_index_entry_best_effort_v1(&idx_path, &entry);
+            #[cfg(rip_verif)]
+            verif_point("cache.comp.idx", event);
         }
     }
 
